@@ -214,3 +214,11 @@ from . import c07 as _c07, c05 as _c05
 # grain-size transport is the C07 contract with zero nucleation; the inner solve ends exactly at its end time (C05)
 REG.contracts.append(_c07.c_getdXdt.contract)
 REG.contracts.append(_c05.c_solve.contract)
+
+
+# the host side of the coupling: every recorded host step updates the coupled models exactly once, also the step on which a stopping condition fires
+# (contract shared with C19); the grain-size grid is extended by the PBM's addSizeClasses (contract shared with C08)
+from . import c19 as _c19, c08 as _c08
+REG.contracts.append(_c19.c_post.contract)
+REG.contracts.append(_c08.c_add.contract)
+REG.contracts.append(_c08.c_add_history.contract)
